@@ -24,8 +24,8 @@ demonstration (passes on the unchanged tree, fails with the patch), confirms the
 the patch, applies the patch in a scratch worktree, runs `./check <property> quick` (then `thorough` if quick
 exits 0) and records the outcome; nothing is ever committed to `/repo`.
 
-The translator alone (regenerated `Gen` files differ from the unchanged tree's, or a fact is not found) sees 24 of
-the {n}: the changes to tables, dispatch arms, constants, lock order, helper functions, the write-deadline discipline and the Expect loop; all the others keep every
+The translator alone (regenerated `Gen` files differ from the unchanged tree's, or a fact is not found) sees 26 of
+the {n}: the changes to tables, dispatch arms, constants, lock order, helper functions, the write-deadline discipline, the Expect loop, `DecodeMessage`'s purity and `Dial`'s reader; all the others keep every
 generated definition and are decided by the correspondence run and the property predicates. First-contact detection
 (quick tier, concrete input, before any strengthening) was 31/40, 21/40, 21/40, 20/40, 25/40, 26/40 and 21/40 in rounds 1 to 7 (each round's brief
 lists every earlier change for the property and asks for something different in kind, so later rounds are harder by construction).
